@@ -45,6 +45,12 @@ type Profile struct {
 	IgnoreCancel int
 	// MaxDepth: nesting depth of loops (1 = loop bodies contain no loops).
 	MaxDepth int
+	// StopBeforeStart: add the shape "a step is stopped (stop_if) while it still waits for what it
+	// needs to start": slow producer zslow, quick stopper ystop, victim xvictim.
+	StopBeforeStart bool
+	// WaitOnNeverPath: percent of wait_for references that go to an error-path stage of a step that
+	// never takes that path (so the waiting step can never start).
+	WaitOnNeverPath int
 	// SoftHang: add a never-ending step that is referenced only through !soft-optional.
 	SoftHang bool
 }
@@ -182,6 +188,14 @@ func (g *genCtx) genStr(depth int) *Expr {
 		}
 		return g.inputStr()
 	case k == 4 && depth < 2:
+		if len(g.prior) >= 2 && g.pct(50, "str_concat") {
+			// one expression over two different producers
+			a := g.prior[rapid.IntRange(0, len(g.prior)-1).Draw(g.t, "concat_a")]
+			b := g.prior[rapid.IntRange(0, len(g.prior)-1).Draw(g.t, "concat_b")]
+			if a != b && a.Kind == "plugin" && b.Kind == "plugin" {
+				return Op("+", StepRef(a.ID, "outputs", "success", "s"), StepRef(b.ID, "outputs", "success", "s"))
+			}
+		}
 		if g.prof.PluginArith {
 			return Call("intToString", g.genInt(depth+1))
 		}
@@ -255,7 +269,11 @@ func (g *genCtx) genPluginStep(id string) *Step {
 	if g.pct(g.prof.IgnoreCancel, "ignore_cancel") {
 		s.In = append(s.In, F("on_cancel", Lit("ignore")))
 	}
-	if g.pct(g.prof.PWaitFor, "waitfor") {
+	if g.pct(g.prof.WaitOnNeverPath, "wait_never") {
+		if p := g.pickPrior("wf_never_src"); p != nil && p.Kind == "plugin" {
+			s.WaitFor = StepRef(p.ID, rapid.SampledFrom([]string{"crashed", "deploy_failed"}).Draw(g.t, "never_stage"), "error")
+		}
+	} else if g.pct(g.prof.PWaitFor, "waitfor") {
 		if p := g.pickPrior("wf_src"); p != nil {
 			switch rapid.IntRange(0, 3).Draw(g.t, "wf_kind") {
 			case 0:
@@ -530,6 +548,24 @@ func GenProgram(t *rapid.T, prof *Profile, doc Doc) *Program {
 		} else {
 			p.Outputs = append(p.Outputs, Output{ID: "other", E: Obj(F("x", StepRef(s.ID, "disabled", "output")))})
 		}
+	}
+	if prof.StopBeforeStart {
+		d := rapid.SampledFrom([]int64{50, 200, 1000}).Draw(t, "zslow_dur")
+		z := &Step{ID: "zslow", Kind: "plugin", In: []Field{F("a", Lit(int64(4))), F("s", Lit("zz")), F("dur", Lit(d))}}
+		y := &Step{ID: "ystop", Kind: "plugin", In: []Field{F("a", Lit(int64(5))), F("dur", Lit(rapid.SampledFrom([]int64{0, 1, 5}).Draw(t, "ystop_dur")))}}
+		x := &Step{ID: "xvictim", Kind: "plugin", In: []Field{F("a", Lit(int64(6))), F("dur", Lit(int64(1)))}, StopIf: StepRef("ystop", "outputs", "")}
+		switch rapid.IntRange(0, 2).Draw(t, "victim_waits_by") {
+		case 0:
+			x.Enabled = Op("==", StepRef("zslow", "outputs", "success", "s"), Lit("<zz>"))
+		case 1:
+			x.WaitFor = StepRef("zslow", "outputs", "success")
+		default:
+			x.In = setField(x.In, "s", StepRef("zslow", "outputs", "success", "s"))
+		}
+		p.Steps = append(p.Steps, z, y, x)
+		o := &p.Outputs[0]
+		o.E.Fields = append(o.E.Fields, F("z", StepRef("zslow", "outputs", "success", "a")),
+			F("victim", OneOf("how", F("ran", StepRef("xvictim", "outputs", "")), F("closed", StepRef("xvictim", "closed", "result")))))
 	}
 	if prof.SoftHang {
 		p.Steps = append(p.Steps, &Step{ID: "slow", Kind: "plugin", In: []Field{F("a", Lit(int64(1))), F("mode", Lit("hang"))}})
